@@ -551,6 +551,11 @@ CHECKS["C12"]["thorough"]["tests"].append({"test": "TestC12Bracket", "checks": 6
 CHECKS["C12"]["rule"] += (" Plus a suffix array of millions of entries with a handful of positions passed: 'W lo' 'W hi' followed by "
                           "70 000 - 1 200 000 records 'W x y' that all sort between the two; the first 64 positions of the first block "
                           "are judged by brute force.")
+CHECKS["C11"]["quick"]["tests"].append({"test": "TestC11Enum", "checks": 1, "subchecks": 106526})
+CHECKS["C11"]["thorough"]["tests"].append({"test": "TestC11Enum", "checks": 1, "subchecks": 362183, "once": True,
+                                           "env": {"VERIF_C11_AB": "17", "VERIF_C11_ABC": "10"}})
+CHECKS["C11"]["rule"] += (" Plus small-scope enumeration: every string over {a,b} up to length 15 (thorough: 17) and over {a,b,c} up to 9 (10) "
+                          "through OSAP with MinMatchLen 3 (shorter strings also with 2), one block, against the exact optimum.")
 CHECKS["C11"]["quick"]["tests"].append({"test": "TestC11Far", "checks": 30, "subchecks": 1})
 CHECKS["C11"]["thorough"]["tests"].append({"test": "TestC11Far", "checks": 40, "subchecks": 1})
 CHECKS["C11"]["rule"] += (" Plus far distances: OSAP over more than a MiB of bytes that are uniform over 256 values (expanded from one "
